@@ -11,12 +11,12 @@ NOTE = ("Trusted base: rustc nightly MIR/resolution, /verif/driver (fact extract
 
 # id -> (implemented, technique, text, design_ref)
 P = {
-    "C01": (False, "MIR must-pass-through / who-may-call over the paint routine", "Static rule discharge of the emit protocol (erase->paint->flush->commit order, commit only on success, single emitter). Does not decide the row arithmetic or screen contents.", "3/C01"),
+    "C01": (True, "MIR must-pass-through / who-may-call over the paint routine", "Static rule discharge of the emit protocol (erase->paint->flush->commit order, commit only on success, single emitter). Does not decide the row arithmetic or screen contents.", "3/C01"),
     "C02": (False, "type facts + dataflow over MultiState", "Static rule discharge: exclusive-access composition (Freeze + guard ownership), frame composed through the logical ordering, every InsertLocation arm maintains ordering, writers of ordering/free_set/members. Not linearizability or alignment arithmetic.", "3/C02"),
-    "C03": (False, "pairing-on-all-exits + const-argument + who-may-copy", "Static rule discharge: text rows never enter the erase count; println always forced; orphan lines moved not copied; zombie-row ownership transfer paired on all exits. Not screen contents.", "3/C03"),
+    "C03": (True, "pairing-on-all-exits + const-argument + who-may-copy", "Static rule discharge: text rows never enter the erase count; println always forced; orphan lines moved not copied; zombie-row ownership transfer paired on all exits. Not screen contents.", "3/C03"),
     "C04": (False, "MIR dominance + per-variant arm effects", "Static rule discharge: forced final draw on every finish path, force flag bypasses every limiter, per-variant effects table, drop finishes exactly-once, API->variant map. Not the painted pixels.", "3/C04"),
     "C05": (False, "MIR dominance (gate structure)", "Static rule discharge of the gate structure only: limiter is the only gate for non-forced frames, position updates precede and do not depend on the gate, paint reads live state. The numeric token-bucket law is NOT decided.", "3/C05"),
-    "C06": (False, "call-graph dominance + taint (non-interference)", "Static rule discharge: terminal effects reachable only through a Drawable built under a visibility test; logical state does not depend on target kind or draw results.", "3/C06"),
+    "C06": (True, "call-graph dominance + taint (non-interference)", "Static rule discharge: terminal effects reachable only through a Drawable built under a visibility test; logical state does not depend on target kind or draw results.", "3/C06"),
     "C07": (False, "atomic-RMW dataflow + panic-edge ledger", "Static rule discharge: single-RMW discipline on the shared position, update before gate, saturating length arithmetic, fraction clamp, no unaudited panic edge in the position/length API.", "3/C07"),
     "C08": (False, "lock-order/join graph acyclicity over lock classes", "Static rule discharge: lock+join graph acyclic, no guard across blocking waits, stop protocol shape, weak-only ticker captures, no guard in public signatures. 'Promptly' as a time bound is not decided.", "3/C08"),
     "C10": (False, "panic-edge ledger (totality)", "Static rule discharge of totality only: no unaudited panic edge reachable from with_template/template. Rendering fidelity is NOT decided.", "3/C10"),
@@ -27,7 +27,7 @@ P = {
     "C16": (False, "setter/holder completeness dataflow", "Static rule discharge: every text setter expands with the bar's current width; every width/style change reaches every holder of expanded text; cache invalidation pairing; encapsulation of the raw text.", "3/C16"),
     "C17": (False, "wrapper transparency + effect placement + sibling agreement", "Static rule discharge over every trait method implemented for ProgressBarIter and the rayon wrappers: arguments/results pass through, count exactly once on success from the transferred amount, sync/async siblings agree. Not rayon scheduling.", "3/C17"),
     "C18": (True, "error-discipline rules over MIR (no-unwrap, pure Err exits, commit-on-success, result reporting)", "Static rule discharge: no io::Result is unwrapped; Err exits are pure; commit only after a successful flush; explicit io::Result APIs return the draw result.", "3/C18"),
-    "C19": (False, "who-constructs (newtype) + control dependence", "Static rule discharge: row accounting uses the wrap-aware measure everywhere, painting of bar lines is guarded by the terminal height, committed count equals painted rows. Not the wrap arithmetic itself.", "3/C19"),
+    "C19": (True, "who-constructs (newtype) + control dependence", "Static rule discharge: row accounting uses the wrap-aware measure everywhere, painting of bar lines is guarded by the terminal height, committed count equals painted rows. Not the wrap arithmetic itself.", "3/C19"),
 }
 
 NA = {
